@@ -7,6 +7,16 @@ V = Path(__file__).resolve().parent.parent
 TECH = "TLA+ specification model-checked with TLC, bound to the implementation by trace validation (TLC checks recorded implementation traces against the abstract spec) and replay of TLC-generated cases/behaviours"
 
 CLAIMS = {
+    "C13": {
+        "text": "Specification FmtRecord: writer expressions over recording sinks denote, per event metadata, the set of sinks to be written (Route); TLC checks exhaustively (all 2187 expressions to depth 3 over 3 sinks, 5 levels x 2 targets) that the operational reading of the real combinators (OptionalWriter / Tee / OrElse as MakeFor) denotes Route. Binding: 300/3000 configurations (full/compact/pretty/json x option combinations x span-event settings x 14 real MakeWriterExt expressions with random parameters) run a 40-operation history (events with contextual / explicit / root parents, span lifecycle, events whose Debug field panics, bursts of 2-8 threads emitting simultaneously); every make_writer_for / write on every sink is recorded raw, projected, and TLC validates per operation: exactly the Route sinks, each asked once with the event's metadata and written once with one complete newline-terminated record naming the level, the event's scope in nesting order and only this event's message.",
+        "note": "Record text is projected with regular expressions / the JSON parser (trusted). F6 (stale buffer after an aborted format) and F19 (pretty formatter ignores explicit root) were found and fixed (1c8f256, 7e2222b).",
+        "ref": "4 (C13)",
+    },
+    "C14": {
+        "text": "Specification JsonFields: per span a map of field name -> acceptable renderings, creation fields overridden by any number of later records (last write wins); an event's line must parse (Python json, duplicate keys rejected) to an object whose fields equal the recorded ones and whose span / spans equal the maps of the event's scope root -> leaf. TLC checks exhaustively that the formatter's parse / insert / re-serialize cycle implements last-write-wins (<= 3 record steps, 3 names, 2 values) and validates 300/3000 recorded histories (45 operations each: nasty field names and values over all types and extremes, explicit / root / contextual parents, all flatten_event / current_span / span_list combinations) operation by operation.",
+        "note": "Per-character escaping validity and value identity are decided by the independent parser and the canonical-token projection in the harness (python), not by TLC; byte slices may appear as arrays or as their hex Debug string. F8 and F10 were found and fixed (deb5108, 71ebcb4).",
+        "ref": "4 (C14)",
+    },
     "C15": {
         "text": "TLC explores every interleaving of 2 producers x 2 lines, queue capacity 1 and 2, lossy and non-lossy, up to 2 injected write/flush faults, the guard dropped at any point, through the worker loop of worker.rs (blocking recv, try_recv drain, flush, error aborts the batch, Shutdown / rendez-vous / writer drop) and checks the abstract invariants (each attempt an offered line, at most once, in acceptance order; non-lossy never drops; everything accepted before the drop is attempted, a flush follows, the writer is released) plus liveness of the guard's drop under weak fairness. Binding: 400/4000 scenarios (capacity, lossy, 1-3 producers, gate pacing forcing full / empty queues, write and flush errors incl. the shutdown batch, short writes, guard dropped after quiescence / mid-stream / before later writes) run against the real non_blocking writer over a scripted underlying writer; TLC validates each totally ordered event log against the abstract invariants stated on events.",
         "note": "The guard's real-time time-outs are assumed not to fire (the harness opens the gate before dropping the guard). Known finding F18 (lines racing with the guard's drop can be accepted and vanish) is reported as KNOWN-FINDING; lines offered after the drop returned are still judged. F7 was found with this model and fixed (7ba1ec8).",
